@@ -376,7 +376,9 @@ def compare_exact(v, game, facts, phat, pstar, theta, sweeps, label):
                                         f"allowed gap theta*(T+1)={tol(theta, T, ps):.3g} (theta={theta}, T={float(T):.3g})")
         else:
             if jac is None:
-                jac, _ = jacobi_reach(game, sweeps=sweeps)
+                # k-step lower bound: a Gauss-Seidel sweep from below dominates a Jacobi sweep.  The reported sweep
+                # count is not part of this property, so two sweeps of slack are left for other counting conventions.
+                jac, _ = jacobi_reach(game, sweeps=max(0, sweeps - 2))
             if ph < jac[s] - SLACK:
                 v.fail("below-k-step-value", f"{label}: state {s} reports {ph!r} after {sweeps} sweeps, "
                                              f"below the {sweeps}-step value {jac[s]!r}")
@@ -510,7 +512,7 @@ def check_board(case, v):
     converged = k < 20000
     if not converged:
         v.cls("independent_iteration_not_converged")
-    kstep, _ = jacobi_reach(game, sweeps=min(sweeps, 20000))
+    kstep, _ = jacobi_reach(game, sweeps=max(0, min(sweeps, 20000) - 2))
     for s in range(n):
         if s in finals:
             if phat[s] != 1:
